@@ -44,6 +44,9 @@ CHECKS = {
                   probes=["stream_with_invalid_message", "multi_message_stream", "oom_fired"]),
     "C17": simlib("C17", LRULE % "C17 (up to 8 outstanding calls with timeouts from 0 ms to infinite, observed by notify callback / polling / blocking; cancel, dispatch, read_write_dispatch, loop iterations, clock advances; peer replies in any order, duplicated, with unknown serials, split across writes, never, or closes; serial counter optionally started just below the 32-bit wrap)",
                   probes=["blocked", "cancelled", "cancel_after_completion", "several_calls", "close_with_several_outstanding", "peer_action_during_block"]),
+    "C20": simlib("C20", LRULE % "C20 (histories of register / register-fallback / unregister over path sets with shared prefixes, adjacent sibling names and the root, mixed with method calls, signals, Introspect and Peer.Ping from a scripted peer to paths inside, beside and below the registered ones; handlers that decline, handle, stay silent, ask for memory once, unregister themselves or another path, or register a new path while a message is offered; allocation failures in the API calls and in dispatch)",
+                  probes=["offer_with_several_candidates", "unknown_method", "unknown_object", "default_introspect", "register_occupied", "register_nomemory", "handler_need_memory",
+                          "redispatch_after_need_memory", "candidate_removed_during_offer", "handler_unregisters_self", "handler_registers_new", "builtin_peer_ping"]),
     "C11": simlib("C11", LRULE % "C11 stream (1-8 valid messages of mixed sizes and byte orders, optionally an invalid one and further bytes; handshake and first message in one write or apart; partitions: all-one-byte, single cut, header-biased cuts, random cuts; independent read-size knob; unsplit fault-free control delivery in the same run)",
                   probes=["stream_with_invalid_message", "multi_message_stream"]),
     "SMOKE": simbus("SMOKE", RULE % "smoke", quick_s=5, thorough_s=10),
@@ -175,6 +178,19 @@ MANIFEST_TEXT = {
                note="Trusted base: simulated kernel (stream, poll, clock), independent codec for the peer side, the per-call model. Single-threaded schedules only: the 'several threads' part of the "
                     "quantifier is not explored (a serialising scheduler over real threads was not built; DESIGN.md says why). One listed known finding (calls outstanding at disconnect are "
                     "dropped rather than completed) is recognised by its exact condition inside the oracle. Sampling: evidence, not proof."),
+    "C20": _mt("Seeded search over histories: the application of a real DBusConnection registers, registers as fallback and unregisters handlers on generated path sets (shared prefixes, "
+               "adjacent sibling names, the root) while a scripted peer sends method calls, signals, Introspect and Peer.Ping to paths inside, beside and below them through the simulated "
+               "socket (short reads / writes, EINTR); handlers decline, handle, stay silent, ask for memory once, unregister themselves or the handler that would be offered next, or "
+               "register a new path while a message is being offered; allocation failures are injected at a chosen allocation of register / unregister calls and of dispatch. Oracle "
+               "(reference model = map path -> registration, stepped together with the real tree): every handler invocation is the next one the model lists (exact path first, then "
+               "fallbacks of successively shorter ancestors, nothing after 'handled', nothing skipped, removed handlers not invoked); the caller receives exactly the predicted answer per "
+               "call in call order (handler reply / UnknownMethod / UnknownObject / built-in introspection listing exactly the model's children / Ping reply); after every API step the "
+               "whole tree as listed by dbus_connection_list_registered and get_object_path_data equals the model; a failed registration (occupied, NoMemory) changes nothing and names "
+               "its error; every unregister function runs exactly once, by connection finalization at the latest.",
+               "DESIGN.md section 4 C20", "deterministic simulation, seeded history and fault search, reference-model oracle stepped with the real object tree",
+               note="Trusted base: simulated kernel, independent codec for the peer, the path-map model. Pinned where the statement is silent: the handlers offered a message are those registered when "
+                    "its dispatch started; one removed meanwhile is skipped, one added is not offered. One listed known finding (UnknownMethod sent where UnknownObject is due) is recognised by "
+                    "its exact substitution inside the oracle. Sampling: evidence, not proof."),
 }
 
 NOT_APPLICABLE = [
@@ -184,6 +200,6 @@ NOT_APPLICABLE = [
 ]
 
 # properties whose check is planned but not finished: not claimed, and listed in not_applicable with that reason
-NOT_CLAIMED_YET = ["C08", "C15", "C19", "C20"]
+NOT_CLAIMED_YET = ["C08", "C15", "C19"]
 for _p in NOT_CLAIMED_YET:
     NOT_APPLICABLE.append({"property_id": _p, "reason": "not claimed yet: the simulation check for this property is designed (DESIGN.md section 4) but not finished; it is applicable to the technique and will be claimed when its check passes the determinism and sensitivity gates"})
